@@ -30,6 +30,9 @@ func (r *Record) IsExpired() bool {
 // IsExpired checks the ttl if expired or not.
 func IsExpired(ttl uint32, timestamp uint64) bool {
 	now := time.Now().Unix()
+	if verifEnabled {
+		now = verifClock(now)
+	}
 	if ttl > 0 && uint64(ttl)+timestamp > uint64(now) || ttl == Persistent {
 		return false
 	}
